@@ -39,7 +39,7 @@ var purityTexts = mustParse(`<<
   << <<"(", "(", FALSE>>, <<"Id", "y", FALSE>>, <<")", ")", FALSE>>, <<".", ".", FALSE>>, <<"Id", "k", FALSE>> >> >>`).([]any)
 
 var purityDatas = mustParse(`<< [x |-> <<"int", 2>>, y |-> <<"map", [k |-> <<"bool", TRUE>>]>>, fail |-> <<"func", "fail">>, crec |-> <<"func", "crec">>],
-  [x |-> <<"dec", FALSE, <<2,5>>, -1>>, y |-> <<"map", [k |-> <<"int", 0>>]>>, fail |-> <<"func", "fail">>, crec |-> <<"func", "crec">>],
+  [x |-> <<"dec", FALSE, <<2,5>>, -1>>, y |-> <<"map", [k |-> <<"int", 0>>]>>, fail |-> <<"func", "fail">>, crec |-> <<"func", "crec">>, t0 |-> <<"time", -719162, 0, 0>>],
   [y |-> <<"nil">>, fail |-> <<"func", "fail">>, crec |-> <<"func", "crec">>] >>`).([]any)
 
 // TreeDump renders a parsed source with everything a caller can see of it: node kinds, ids,
@@ -301,6 +301,8 @@ var purityUnrelated = []string{"1 + 2 * 3", "'a' + 'b'", "[1, 2, 3]", "len('abc'
 	"1 )", "(1 2", "f(1 2", "a b", "price * qty + 1", "[1, 2] 3", "'s' 't'",
 	// host functions that take the context first (called more than once per process), several back-references to the data map
 	"crec(x)", "crec(1) + crec(2)", "crec('a', 2)", "[crec(y), fail(1)]", "$x = this, $y = this, toString(this)", "$x = this, $y = [this], 'a' + $y",
+	// every kind of "... expected" error next to each other (their texts come from shared templates); a zero time
+	"a > 1 ? b", "(1", "[1, 2", "x ? y :", "f(1", "a.", "a ? b : c ? d", "millSecond(addDate(t0, 0, 0, 7))", "timeFormat(addDate(t0, 0, 1, 0), '2006-01-02 15:04:05')", "year(t0)",
 	"regexp('a', 'a')", "regexp('a', '(')", "regexp('ab', '[')", "regexp('ab', 'a.')", "regexp('(', '(')",
 	"\u0663 + 1", "n\u0663 * 2", "\u0301 + 1", "cafe\u0301 + 1", "\u203f", "a\u203f", "\u2118x", "x\u2118", "\u00aa\u00b7", "\u00b7\u00aa"}
 
